@@ -16,7 +16,7 @@ from ..rfc7518.derive_key import (
 )
 from ..rfc7518.jwe_encs import CBCHS2EncModel
 from ..registry import HeaderParameter
-from ..errors import InvalidEncryptionAlgorithmError
+from ..errors import InvalidEncryptionAlgorithmError, InvalidExchangeKeyError
 
 
 __all__ = ['ECDH1PUAlgModel', 'register_ecdh_1pu', 'JWE_ALG_MODELS']
@@ -115,7 +115,11 @@ class ECDH1PUAlgModel(JWEKeyAgreement):
         assert sender_key is not None
         assert recipient_key is not None
 
-        ephemeral_key = recipient_key.import_key(headers["epk"])
+        try:
+            ephemeral_key = recipient_key.import_key(headers["epk"])
+        except ValueError:
+            # the "epk" is not a public key of the recipient key's type
+            raise InvalidExchangeKeyError()
         sender_shared_key = recipient_key.exchange_derive_key(sender_key)
         ephemeral_shared_key = recipient_key.exchange_derive_key(ephemeral_key)
         shared_key = ephemeral_shared_key + sender_shared_key
